@@ -245,6 +245,16 @@ def depth_of(desc):
     return d
 
 
+def nested_names(desc):
+    out = []
+    for v in desc.get("args", {}).values():
+        if v[0] == "obj":
+            out.append(v[1]["cls"] + "(" + nested_names(v[1]) + ")")
+        elif v[0] == "objs":
+            out.append("[" + ",".join(x["cls"] + "(" + nested_names(x) + ")" for x in v[1]) + "]")
+    return ",".join(out)
+
+
 def build(desc, classes, top=False):
     res = _build_raw(desc, classes)
     return res if top else res[0]
@@ -348,7 +358,7 @@ def run_component(case, classes=None):
         return {"labels": labels + ["raised"], "nontrivial": True, "key": cname + "|raise",
                 "violation": {"kind": f"roundtrip-raises:{cname}:{type(exc).__name__}", "detail": f"{cname}: to_dict/JSON/from_dict by registered name raised {type(exc).__name__}: {str(exc)[:300]}"}}
     nondefault = sorted(list(kwargs) + list(applied))
-    out = {"labels": labels, "nontrivial": bool(nondefault), "key": f"{cname}|{','.join(nondefault)}|{depth_of(desc)}", "violation": None}
+    out = {"labels": labels, "nontrivial": bool(nondefault), "key": f"{cname}|{','.join(nondefault)}|{depth_of(desc)}|{nested_names(desc)}", "violation": None}
     if type(obj2) is not type(obj):
         out["violation"] = {"kind": f"type-changed:{cname}", "detail": f"rebuilt object is a {type(obj2).__name__}"}
         return out
